@@ -41,6 +41,10 @@ def _texts(tier):
         k2 = [a + " " + b for a in toks for b in toks]
     else:
         k2 = alphabet.texts_k2(2, glued="hazards")
+    # a #label between two tokens (removing it leaves a double blank between the neighbours)
+    core = [t for t in alphabet.HAZARD_CORE if t and not t.startswith("#")][: (12 if tier == "quick" else 40)] + ["5pm", "tomorrow", "monday", "9:30"]
+    core = list(dict.fromkeys(core))
+    k2 += [a + " #lbl " + b for a in core for b in core]
     return corp, k1, list(dict.fromkeys(k2))
 
 
